@@ -262,7 +262,36 @@ def rule_U(ctx):
               node=f.node, key='wiring')
 
 
+class _Proxy:
+    """the forward pass decided under C06.R/V/C is also a premise of C07 (the path is optimal only if the labels are)"""
+
+    def __init__(self, ctx):
+        self._ctx = ctx
+
+    def __getattr__(self, k):
+        return getattr(self._ctx, k)
+
+    def ok(self, rule, *a, **kw):
+        return self._ctx.ok('C07.F', *a, **kw)
+
+    def violation(self, rule, *a, **kw):
+        return self._ctx.violation('C07.F', *a, **kw)
+
+    def check(self, cond, rule, func, desc, witness=None, node=None, key=None):
+        return self._ctx.check(cond, 'C07.F', func, desc, witness=witness, node=node, key=key)
+
+    def recognise(self, cond, rule, func, desc, node=None, witness=None, key=None):
+        return self._ctx.recognise(cond, 'C07.F', func, desc, node=node)
+
+
+def rule_F(ctx):
+    """C07.F forward pass: relaxation, queue key, expansion order (shared with C06.R)"""
+    from . import c06
+    c06.rule_R(_Proxy(ctx))
+
+
 RULES = [
+    ('C07.F', rule_F, 'quick'),
     ('C07.N', rule_N, 'quick'),
     ('C07.P', rule_P, 'quick'),
     ('C07.G', rule_G, 'quick'),
